@@ -38,7 +38,7 @@ def main():
             return mod.replay(a.pid, a.replay)
         return mod.check(a.pid, tier, regen=a.regen)
 
-    C.main_wrapper(run)
+    C.main_wrapper(run, a.pid, tier)
 
 
 if __name__ == "__main__":
